@@ -716,6 +716,29 @@ def wave11_rules(ctx):
                 bad.append("%s: a name rebuilt with `%s` keeps `%s`" % (f.name, ms[0], sir.expr_str(fl["location"])))
     obs.append(ob("C16.loc/name-is-spelling", False if bad else True if n_ >= 5 else None, "parse/tag.rs", "; ".join(bad[:2]) if bad else "%d rebuilt names; none is trimmed, split or replaced under a copied location" % n_,
                   witness=None if not bad else '<wxs module=" utils "/>: the location of the module name starts at the blank'))
+    # (2b) the `}}` recorded for the to-string wrapper of a binding is that binding's own: expression and brace locations that were
+    #      taken out of one `Value::Dynamic { expression: E, double_brace_location: L, .. }` pattern are handed over together
+    vp_ = [f for f in tc.fns if f.name == "parse_until_before" and f.base == "Value" and f.body]
+    if vp_:
+        f = vp_[0]
+        pairs = {}
+        for n in sir.walk(f.body, into_closures=True):
+            for pnode in sir.walk(n.get("pat") or {}) if n.get("k") in ("arm", "local", "let") else []:
+                if pnode.get("k") == "p_struct":
+                    fl = {y["name"]: y["pat"] for y in pnode["fields"]}
+                    if "expression" in fl and "double_brace_location" in fl and fl["expression"].get("k") == "p_ident" and fl["double_brace_location"].get("k") == "p_ident":
+                        pairs[fl["expression"]["name"]] = fl["double_brace_location"]["name"]
+        mixed, n_w = [], 0
+        for x in sir.walk(f.body, into_closures=True):
+            if x.get("k") == "call" and sir.call_name(x) == "wrap_to_string" and len(x["args"]) == 2:
+                e_, l_ = sir.root_expr_name(x["args"][0]), sir.root_expr_name(x["args"][1])
+                if e_ in pairs:
+                    n_w += 1
+                    if l_ != pairs[e_]:
+                        mixed.append("`%s` is wrapped with the braces of `%s` (its own are `%s`)" % (e_, l_, pairs[e_]))
+        obs.append(ob("C16.loc/wrapper-own-braces", False if mixed else True if n_w >= 2 else None, ctx.where(f),
+                      "; ".join(mixed[:2]) if mixed else "%d to-string wrappers, each located at the `}}` of the binding it wraps" % n_w,
+                      witness=None if not mixed else "`{{ a }}{{ b }}`: both wrappers point at the second `}}`"))
     # (3) no location is pieced together from the end of one item and the end of another: a start is a sampled position or the start
     #     of an item (what lies between two items - blanks, comments, line breaks - belongs to neither)
     glued = []
